@@ -6,4 +6,388 @@ open Zrnt.Beacon Zrnt.Beacon.Spec
 theorem testBit_eq (n i : Nat) : Nat.testBit n i = decide ((n / 2 ^ i) % 2 = 1) := by
   rw [Nat.testBit_eq_decide_div_mod_eq]
 
+/-! ### `foldl max` -/
+
+theorem foldl_max_init (l : List Nat) (a : Nat) : l.foldl max a = max a (l.foldl max 0) := by
+  induction l generalizing a with
+  | nil => simp
+  | cons x xs ih => simp only [List.foldl_cons]; rw [ih (max a x), ih (max 0 x)]; omega
+
+theorem foldl_max_append (l1 l2 : List Nat) : (l1 ++ l2).foldl max 0 = max (l1.foldl max 0) (l2.foldl max 0) := by
+  rw [List.foldl_append, foldl_max_init]
+
+theorem foldl_max_cons (x : Nat) (l : List Nat) : (x :: l).foldl max 0 = max x (l.foldl max 0) := by
+  simp only [List.foldl_cons]; rw [foldl_max_init]; omega
+
+/-- the exit epochs that count for the queue -/
+def exits (vals : List Validator) : List Nat := (vals.filter (·.exit_epoch ≠ FAR_FUTURE_EPOCH)).map (·.exit_epoch)
+
+/-- last epoch of the exit queue as `initiate_validator_exit` computes it -/
+def qmax (cfg : Config) (cur : Nat) (vals : List Validator) : Nat :=
+  (exits vals ++ [compute_activation_exit_epoch cfg cur]).foldl max 0
+
+def qcount (vals : List Validator) (E : Nat) : Nat := (vals.filter (·.exit_epoch = E)).length
+
+def activeCount (vals : List Validator) (cur : Nat) : Nat := (vals.filter (is_active_validator · cur)).length
+
+theorem qmax_eq (cfg : Config) (cur : Nat) (vals : List Validator) :
+    qmax cfg cur vals = max ((exits vals).foldl max 0) (compute_activation_exit_epoch cfg cur) := by
+  unfold qmax; rw [foldl_max_append]; simp
+
+theorem exits_append (a b : List Validator) : exits (a ++ b) = exits a ++ exits b := by
+  simp [exits]
+
+theorem exits_cons (v : Validator) (l : List Validator) :
+    exits (v :: l) = if v.exit_epoch ≠ FAR_FUTURE_EPOCH then v.exit_epoch :: exits l else exits l := by
+  unfold exits; simp only [List.filter_cons]; split <;> simp_all
+
+/-- every counted exit epoch is at most the queue end -/
+theorem le_qmax (cfg : Config) (cur : Nat) (vals : List Validator) (v : Validator) (hv : v ∈ vals)
+    (hne : v.exit_epoch ≠ FAR_FUTURE_EPOCH) : v.exit_epoch ≤ qmax cfg cur vals := by
+  rw [qmax_eq]
+  have : v.exit_epoch ≤ (exits vals).foldl max 0 := by
+    induction vals with
+    | nil => cases hv
+    | cons x xs ih =>
+      rw [exits_cons]
+      rcases List.mem_cons.mp hv with h | h
+      · subst h; rw [if_pos hne, foldl_max_cons]; omega
+      · have := ih h
+        split
+        · rw [foldl_max_cons]; omega
+        · exact this
+  omega
+
+theorem qcount_above (cfg : Config) (cur : Nat) (vals : List Validator) (E : Nat) (hE : qmax cfg cur vals < E)
+    (hfar : E ≠ FAR_FUTURE_EPOCH) : qcount vals E = 0 := by
+  unfold qcount
+  rw [List.length_eq_zero_iff, List.filter_eq_nil_iff]
+  intro v hv h
+  have h' : v.exit_epoch = E := by simpa using h
+  have := le_qmax cfg cur vals v hv (by rw [h']; exact hfar)
+  omega
+
+theorem exits_ne_far (vals : List Validator) : ∀ x ∈ exits vals, x ≠ FAR_FUTURE_EPOCH := by
+  intro x hx
+  unfold exits at hx
+  simp only [List.mem_map, List.mem_filter] at hx
+  obtain ⟨v, ⟨_, hv⟩, rfl⟩ := hx
+  simpa using hv
+
+theorem foldl_max_ne (l : List Nat) (a b : Nat) (ha : a ≠ b) (hl : ∀ x ∈ l, x ≠ b) : l.foldl max a ≠ b := by
+  induction l generalizing a with
+  | nil => simpa
+  | cons x xs ih =>
+    simp only [List.foldl_cons]
+    apply ih
+    · have := hl x (by simp)
+      rcases Nat.le_total a x with h | h
+      · rw [Nat.max_eq_right h]; exact this
+      · rw [Nat.max_eq_left h]; exact ha
+    · intro y hy; exact hl y (by simp [hy])
+
+theorem qcount_cons (v : Validator) (l : List Validator) (E : Nat) :
+    qcount (v :: l) E = (if v.exit_epoch = E then 1 else 0) + qcount l E := by
+  unfold qcount
+  simp only [List.filter_cons]
+  split <;> rename_i h
+  · have : v.exit_epoch = E := by simpa using h
+    simp [this]; omega
+  · have : ¬ v.exit_epoch = E := by simpa using h
+    simp [this]
+
+/-- The single scan of `ComputeRegistryProcessData` from an accumulator `(m, c)`. -/
+theorem scan_general (l : List Validator) (m c : Nat) (hm : m ≠ FAR_FUTURE_EPOCH) :
+    (l.map (·.exit_epoch)).foldl (fun (acc : Nat × Nat) exit =>
+      if exit = FAR_FUTURE_EPOCH then acc else
+      let acc := if exit > acc.1 then (exit, 0) else acc
+      if exit = acc.1 then (acc.1, acc.2 + 1) else acc) (m, c) =
+    (max m ((exits l).foldl max 0),
+     (if max m ((exits l).foldl max 0) = m then c else 0) + qcount l (max m ((exits l).foldl max 0))) := by
+  induction l generalizing m c with
+  | nil => simp [exits, qcount]
+  | cons v vs ih =>
+    simp only [List.map_cons, List.foldl_cons]
+    rw [exits_cons, qcount_cons]
+    by_cases hfar : v.exit_epoch = FAR_FUTURE_EPOCH
+    · rw [if_pos hfar, ih m c hm]
+      have hne : max m ((exits vs).foldl max 0) ≠ FAR_FUTURE_EPOCH := by
+        rw [← foldl_max_init]; exact foldl_max_ne _ _ _ hm (exits_ne_far vs)
+      simp only [hfar, ne_eq, not_true_eq_false, ↓reduceIte]
+      have : ¬ FAR_FUTURE_EPOCH = max m ((exits vs).foldl max 0) := fun h => hne h.symm
+      simp [this]
+    · rw [if_neg hfar]
+      simp only [ne_eq, hfar, not_false_eq_true, ↓reduceIte, foldl_max_cons]
+      by_cases hgt : v.exit_epoch > m
+      · simp only [hgt, ↓reduceIte]
+        rw [ih v.exit_epoch 1 hfar]
+        have e1 : max v.exit_epoch ((exits vs).foldl max 0) = max m (max v.exit_epoch ((exits vs).foldl max 0)) := by omega
+        rw [← e1]
+        congr 1
+        by_cases h2 : max v.exit_epoch ((exits vs).foldl max 0) = v.exit_epoch
+        · have h3 : ¬ max v.exit_epoch ((exits vs).foldl max 0) = m := by omega
+          simp [h2]; omega
+        · have h3 : ¬ max v.exit_epoch ((exits vs).foldl max 0) = m := by omega
+          have h4 : ¬ v.exit_epoch = max v.exit_epoch ((exits vs).foldl max 0) := fun h => h2 h.symm
+          simp [h2, h3, h4]
+      · simp only [hgt, ↓reduceIte]
+        by_cases heq : v.exit_epoch = m
+        · simp only [heq, ↓reduceIte]
+          rw [ih m (c + 1) hm]
+          have e1 : max m ((exits vs).foldl max 0) = max m (max m ((exits vs).foldl max 0)) := by omega
+          rw [← e1]
+          congr 1
+          by_cases h2 : max m ((exits vs).foldl max 0) = m
+          · simp [h2]; omega
+          · have h4 : ¬ m = max m ((exits vs).foldl max 0) := fun h => h2 h.symm
+            simp [h2, h4]
+        · simp only [heq, ↓reduceIte]
+          rw [ih m c hm]
+          have e1 : max m ((exits vs).foldl max 0) = max m (max v.exit_epoch ((exits vs).foldl max 0)) := by omega
+          rw [← e1]
+          congr 1
+          have h4 : ¬ v.exit_epoch = max m ((exits vs).foldl max 0) := by omega
+          simp [h4]
+
+theorem scan_eq (cfg : Config) (cur : Nat) (vals : List Validator)
+    (hcae : compute_activation_exit_epoch cfg cur ≠ FAR_FUTURE_EPOCH) :
+    Impl.exitQueueScan (compute_activation_exit_epoch cfg cur) (vals.map (·.exit_epoch)) =
+      (qmax cfg cur vals, qcount vals (qmax cfg cur vals)) := by
+  unfold Impl.exitQueueScan
+  rw [scan_general vals _ 0 hcae, qmax_eq]
+  have : max (compute_activation_exit_epoch cfg cur) ((exits vals).foldl max 0) =
+      max ((exits vals).foldl max 0) (compute_activation_exit_epoch cfg cur) := by omega
+  rw [this]; simp
+
+/-- the epoch `initiate_validator_exit` assigns next -/
+def next (cfg : Config) (cur : Nat) (vals : List Validator) : Nat :=
+  if qcount vals (qmax cfg cur vals) ≥ churn_limit_of cfg vals cur then qmax cfg cur vals + 1 else qmax cfg cur vals
+
+def exited (cfg : Config) (v : Validator) (E : Nat) : Validator :=
+  { v with exit_epoch := E, withdrawable_epoch := E + cfg.MIN_VALIDATOR_WITHDRAWABILITY_DELAY }
+
+theorem ive_eq (cfg : Config) (cur : Nat) (vals : List Validator) (i : Nat) (v : Validator)
+    (hv : vals[i]? = some v) (hfar : v.exit_epoch = FAR_FUTURE_EPOCH) :
+    initiate_validator_exit_pure cfg cur vals i = vals.set i (exited cfg v (next cfg cur vals)) := by
+  unfold initiate_validator_exit_pure
+  simp only [hv, hfar, ne_eq, not_true_eq_false, ↓reduceIte]
+  unfold next exited qmax qcount exits
+  simp only [ne_eq, decide_not, ge_iff_le]
+
+theorem split_at (vals : List Validator) (i : Nat) (v : Validator) (hv : vals[i]? = some v) :
+    vals = vals.take i ++ v :: vals.drop (i + 1) ∧
+    ∀ v', vals.set i v' = vals.take i ++ v' :: vals.drop (i + 1) := by
+  obtain ⟨hi, hget⟩ := List.getElem?_eq_some_iff.mp hv
+  constructor
+  · conv => lhs; rw [← List.take_append_drop i vals]
+    rw [List.drop_eq_getElem_cons hi, hget]
+  · intro v'
+    rw [List.set_eq_take_append_cons_drop, if_pos hi]
+
+theorem cae_le_qmax (cfg : Config) (cur : Nat) (vals : List Validator) :
+    compute_activation_exit_epoch cfg cur ≤ qmax cfg cur vals := by
+  rw [qmax_eq]; omega
+
+theorem qcount_append (a b : List Validator) (E : Nat) : qcount (a ++ b) E = qcount a E + qcount b E := by
+  simp [qcount]
+
+/-- effect of one exit on the summaries -/
+theorem set_exit_summaries (cfg : Config) (cur : Nat) (vals : List Validator) (i : Nat) (v : Validator) (E : Nat)
+    (hv : vals[i]? = some v) (hfar : v.exit_epoch = FAR_FUTURE_EPOCH) (hE : E ≠ FAR_FUTURE_EPOCH)
+    (hact : is_active_validator v cur = true) (hcur : cur < E) :
+    qmax cfg cur (vals.set i (exited cfg v E)) = max (qmax cfg cur vals) E ∧
+    (∀ X, X ≠ FAR_FUTURE_EPOCH → qcount (vals.set i (exited cfg v E)) X = qcount vals X + (if E = X then 1 else 0)) ∧
+    churn_limit_of cfg (vals.set i (exited cfg v E)) cur = churn_limit_of cfg vals cur := by
+  obtain ⟨h1, h2⟩ := split_at vals i v hv
+  rw [h2]
+  generalize vals.take i = a at *
+  generalize vals.drop (i + 1) = b at *
+  subst h1
+  refine ⟨?_, ?_, ?_⟩
+  · simp only [qmax_eq, exits_append, exits_cons, exited, hfar, ne_eq, hE, not_false_eq_true, ↓reduceIte,
+      not_true_eq_false, foldl_max_append, foldl_max_cons]
+    omega
+  · intro X hX
+    simp only [qcount_append, qcount_cons, exited, hfar]
+    have : ¬ FAR_FUTURE_EPOCH = X := fun h => hX h.symm
+    simp only [this, ↓reduceIte]
+    omega
+  · unfold churn_limit_of
+    simp only [List.filter_append, List.filter_cons, List.length_append]
+    have h3 : is_active_validator (exited cfg v E) cur = true := by
+      unfold is_active_validator exited at *
+      simp only [Bool.and_eq_true, decide_eq_true_eq] at hact ⊢
+      exact ⟨hact.1, hcur⟩
+    simp [hact, h3]
+
+/-- index of an active validator without an exit epoch -/
+def Ejectable (cur : Nat) (vals : List Validator) (i : Nat) : Prop :=
+  ∃ v, vals[i]? = some v ∧ v.exit_epoch = FAR_FUTURE_EPOCH ∧ is_active_validator v cur = true
+
+theorem next_ge (cfg : Config) (cur : Nat) (vals : List Validator) :
+    qmax cfg cur vals ≤ next cfg cur vals ∧ cur < next cfg cur vals := by
+  have := cae_le_qmax cfg cur vals
+  unfold compute_activation_exit_epoch at this
+  unfold next
+  split <;> omega
+
+/-- The batched ejections (`exitEnd`/`endChurn` stepping from a position that agrees with the registry)
+assign what the sequential `initiate_validator_exit` calls assign. -/
+theorem ejections_aux (cfg : Config) (cur : Nat) (idxs : List Nat) (vals : List Validator) (E c : Nat)
+    (hE : E = next cfg cur vals) (hc : c = qcount vals E)
+    (hidx : ∀ i ∈ idxs, Ejectable cur vals i) (hnd : idxs.Nodup)
+    (hbound : ∀ k, k ≤ idxs.length → E + k ≠ FAR_FUTURE_EPOCH) :
+    Impl.processEjections cfg (churn_limit_of cfg vals cur) E c idxs vals =
+      idxs.foldl (initiate_validator_exit_pure cfg cur) vals := by
+  induction idxs generalizing vals E c with
+  | nil => simp [Impl.processEjections]
+  | cons i rest ih =>
+    obtain ⟨v, hv, hfar, hact⟩ := hidx i (by simp)
+    have hEne : E ≠ FAR_FUTURE_EPOCH := by simpa using hbound 0 (by simp)
+    have hE1ne : E + 1 ≠ FAR_FUTURE_EPOCH := hbound 1 (by simp)
+    obtain ⟨hge, hcur⟩ := next_ge cfg cur vals
+    rw [← hE] at hge hcur
+    obtain ⟨hq, hcnt, hL⟩ := set_exit_summaries cfg cur vals i v E hv hfar hEne hact hcur
+    have hqE : qmax cfg cur (vals.set i (exited cfg v E)) = E := by rw [hq]; omega
+    have hcE : qcount (vals.set i (exited cfg v E)) E = c + 1 := by rw [hcnt E hEne, hc]; simp
+    simp only [List.foldl_cons]
+    rw [ive_eq cfg cur vals i v hv hfar, ← hE]
+    unfold Impl.processEjections
+    simp only [hv]
+    have hset : vals.set i { v with exit_epoch := E, withdrawable_epoch := E + cfg.MIN_VALIDATOR_WITHDRAWABILITY_DELAY } =
+        vals.set i (exited cfg v E) := rfl
+    rw [hset]
+    have hidx' : ∀ j ∈ rest, Ejectable cur (vals.set i (exited cfg v E)) j := by
+      intro j hj
+      have hne : i ≠ j := by
+        intro h; subst h
+        exact (List.nodup_cons.mp hnd).1 hj
+      obtain ⟨w, hw, hw1, hw2⟩ := hidx j (by simp [hj])
+      exact ⟨w, by rw [List.getElem?_set_ne hne]; exact hw, hw1, hw2⟩
+    have hnd' : rest.Nodup := (List.nodup_cons.mp hnd).2
+    have hnext : next cfg cur (vals.set i (exited cfg v E)) =
+        if c + 1 ≥ churn_limit_of cfg vals cur then E + 1 else E := by
+      unfold next; rw [hqE, hcE, hL]
+    split <;> rename_i hch
+    · rw [← hL]
+      apply ih
+      · rw [hnext, if_pos hch]
+      · rw [qcount_above cfg cur _ (E + 1) (by rw [hqE]; omega) hE1ne]
+      · exact hidx'
+      · exact hnd'
+      · intro k hk
+        have := hbound (k + 1) (by simp; omega)
+        intro h; apply this; omega
+    · rw [← hL]
+      apply ih
+      · rw [hnext, if_neg hch]
+      · rw [hcE]
+      · exact hidx'
+      · exact hnd'
+      · intro k hk
+        exact hbound k (by simp; omega)
+
+theorem mem_zip_range' (l : List Validator) (s i : Nat) (v : Validator)
+    (h : (i, v) ∈ (List.range' s l.length).zip l) : s ≤ i ∧ l[i - s]? = some v := by
+  induction l generalizing s with
+  | nil => simp at h
+  | cons x xs ih =>
+    simp only [List.length_cons, List.range'_succ, List.zip_cons_cons, List.mem_cons, Prod.mk.injEq] at h
+    rcases h with ⟨rfl, rfl⟩ | h
+    · simp
+    · obtain ⟨h1, h2⟩ := ih (s + 1) h
+      refine ⟨by omega, ?_⟩
+      have : i - s = (i - (s + 1)) + 1 := by omega
+      rw [this]; simpa using h2
+
+theorem mem_zip_range (l : List Validator) (i : Nat) (v : Validator)
+    (h : (i, v) ∈ (List.range l.length).zip l) : l[i]? = some v := by
+  rw [List.range_eq_range'] at h
+  simpa using (mem_zip_range' l 0 i v h).2
+
+theorem filter_zip_nodup (l : List Validator) (p : Nat × Validator → Bool) :
+    ((((List.range l.length).zip l).filter p).map (·.1)).Nodup := by
+  have h1 : (((List.range l.length).zip l).map (·.1)) = List.range l.length := by
+    rw [List.map_fst_zip]; simp
+  have h2 : List.Sublist ((((List.range l.length).zip l).filter p).map (·.1)) (((List.range l.length).zip l).map (·.1)) :=
+    List.Sublist.map _ List.filter_sublist
+  rw [h1] at h2
+  exact h2.nodup List.nodup_range
+
+theorem foldl_max_le (l : List Nat) (b : Nat) (h : ∀ x ∈ l, x ≤ b) : l.foldl max 0 ≤ b := by
+  induction l with
+  | nil => simp
+  | cons x xs ih =>
+    rw [foldl_max_cons]
+    have := h x (by simp)
+    have := ih (fun y hy => h y (by simp [hy]))
+    omega
+
+/-- Magnitude hypothesis of the registry theorems: every epoch in play stays far below `FAR_FUTURE_EPOCH = 2^64 - 1`
+(one epoch is 6.4 minutes; the hypothesis fails after about 10^14 years). -/
+def EpochsSmall (cfg : Config) (cur : Nat) (vals : List Validator) : Prop :=
+  compute_activation_exit_epoch cfg cur + vals.length + 1 < FAR_FUTURE_EPOCH ∧
+  ∀ v ∈ vals, v.exit_epoch ≠ FAR_FUTURE_EPOCH → v.exit_epoch + vals.length + 1 < FAR_FUTURE_EPOCH
+
+theorem qmax_small (cfg : Config) (cur : Nat) (vals : List Validator) (h : EpochsSmall cfg cur vals) :
+    qmax cfg cur vals + vals.length + 1 < FAR_FUTURE_EPOCH := by
+  rw [qmax_eq]
+  have h1 : (exits vals).foldl max 0 ≤ FAR_FUTURE_EPOCH - vals.length - 2 := by
+    apply foldl_max_le
+    intro x hx
+    unfold exits at hx
+    simp only [List.mem_map, List.mem_filter] at hx
+    obtain ⟨v, ⟨hv, hne⟩, rfl⟩ := hx
+    have := h.2 v hv (by simpa using hne)
+    omega
+  have := h.1
+  omega
+
+/-- `registry_batched_eq_sequential` (core): the batched ejections of `ProcessEpochRegistryUpdates`, started from
+the queue position computed by the single scan of `ComputeRegistryProcessData`, assign the same
+`(exit_epoch, withdrawable_epoch)` to the same validators as calling `initiate_validator_exit` one by one
+on the validators to eject, in index order. -/
+theorem ejections_batched_eq_sequential (cfg : Config) (cur : Nat) (vals : List Validator)
+    (hsmall : EpochsSmall cfg cur vals) :
+    Impl.processEjections cfg (Impl.computeRegistryProcessData cfg vals cur).churnLimit
+        (Impl.computeRegistryProcessData cfg vals cur).exitQueueEnd
+        (Impl.computeRegistryProcessData cfg vals cur).exitQueueEndChurn
+        (Impl.computeRegistryProcessData cfg vals cur).indicesToEject vals =
+      (Impl.computeRegistryProcessData cfg vals cur).indicesToEject.foldl (initiate_validator_exit_pure cfg cur) vals := by
+  have hq := qmax_small cfg cur vals hsmall
+  have hcae : compute_activation_exit_epoch cfg cur ≠ FAR_FUTURE_EPOCH := by have := hsmall.1; omega
+  have hscan := scan_eq cfg cur vals hcae
+  have hL : (Impl.computeRegistryProcessData cfg vals cur).churnLimit = churn_limit_of cfg vals cur := rfl
+  have hEc : (Impl.computeRegistryProcessData cfg vals cur).exitQueueEnd = next cfg cur vals ∧
+      (Impl.computeRegistryProcessData cfg vals cur).exitQueueEndChurn = qcount vals (next cfg cur vals) := by
+    unfold Impl.computeRegistryProcessData next
+    simp only [hscan]
+    split <;> rename_i h
+    · have h' : qcount vals (qmax cfg cur vals) ≥ churn_limit_of cfg vals cur := h
+      rw [if_pos h']
+      refine ⟨rfl, ?_⟩
+      rw [qcount_above cfg cur vals _ (Nat.lt_succ_self _) (by omega)]
+    · have h' : ¬ qcount vals (qmax cfg cur vals) ≥ churn_limit_of cfg vals cur := h
+      rw [if_neg h']
+      exact ⟨rfl, rfl⟩
+  rw [hL, hEc.1, hEc.2]
+  have hlen : (Impl.computeRegistryProcessData cfg vals cur).indicesToEject.length ≤ vals.length := by
+    unfold Impl.computeRegistryProcessData
+    simp only [List.length_map]
+    refine Nat.le_trans (List.length_filter_le _ _) ?_
+    simp
+  apply ejections_aux cfg cur _ vals _ _ rfl rfl
+  · intro i hi
+    unfold Impl.computeRegistryProcessData at hi
+    simp only [List.mem_map, List.mem_filter] at hi
+    obtain ⟨⟨j, v⟩, ⟨hmem, hp⟩, rfl⟩ := hi
+    simp only [Bool.and_eq_true, decide_eq_true_eq, beq_iff_eq] at hp
+    exact ⟨v, mem_zip_range vals j v hmem, hp.2, hp.1.1⟩
+  · unfold Impl.computeRegistryProcessData
+    exact filter_zip_nodup vals _
+  · intro k hk
+    have := (next_ge cfg cur vals).1
+    have h2 : next cfg cur vals ≤ qmax cfg cur vals + 1 := by unfold next; split <;> omega
+    omega
+
 end Zrnt.Proofs.Lemmas
